@@ -132,6 +132,15 @@ func buildC18Entries() []c18Entry {
 		err := v.Scan(src)
 		return v == date.Date{}, err
 	})
+	add("date", "date.Date.Scan (typed nil pointers, Valuers, odd kinds)", false, false, func(a, _ string) (bool, error) {
+		hs := hostileScanSources()
+		v := date.New(2020, 2, 2)
+		err := v.Scan(hs[len(a)%len(hs)])
+		if err == nil {
+			return true, nil
+		}
+		return v == date.New(2020, 2, 2), err // an error leaves the receiver alone (reported as "zero" to the generic judge)
+	})
 	for _, r := range []roman.Rule{0, roman.RuleDisableEmptyAsZero, -1} {
 		r := r
 		add("roman", fmt.Sprintf("roman.DefaultParser[string](%d)", r), true, false, func(a, _ string) (bool, error) { v, err := roman.DefaultParser(a, r); return v == 0, err })
